@@ -77,10 +77,22 @@ Theorem C08_relevance_integral_age : forall c st,
   relevance c st = c_age_n c * match h_sp st with Some sp => Z.max (c_period c) sp | None => c_period c end.
 Proof. exact relevance_integral_age. Qed.
 
+(* The two float computations of the resize control flow, as checked against the implementation on every
+   compared run (hspec_ok): the estimate is (T - sampling_start)/received within a microsecond, the new
+   capacity lies in [1, max_buffer_len]. *)
+Theorem C08_estimate_spec : forall st T osp s0,
+  h_start st = Some s0 -> 0 < h_recv st -> osp_ok st T osp = true ->
+  (osp - 1) * h_recv st <= T - s0 <= (osp + 1) * h_recv st.
+Proof. exact osp_ok_spec. Qed.
+
+Theorem C08_capacity_bounds : forall c osp olen,
+  1 <= c_max_len c -> olen_ok c osp olen = true -> 1 <= olen <= c_max_len c.
+Proof. exact olen_ok_bounds. Qed.
+
 (* non-vacuity: period 1 s, max age 1.5, capacity 3; samples stamped 0.4 s, exactly T - 1.5 s (excluded),
    +1 us (included), a NaN, exactly T (included), T + 1 us (arrived early, excluded) *)
 Example C08_nonvacuous :
-  let c := mkC 1000000 3 2 3 in
+  let c := mkC 1000000 3 2 3 1024 in
   let es := [Recv (mkI 400000 0 0); Recv (mkI 500000 1 0); Recv (mkI 500001 2 0); Recv (mkI 900000 3 2);
              Recv (mkI 2000000 4 0); Recv (mkI 2000001 5 0)] in
   tsorted (valid_hist es) /\
@@ -102,3 +114,5 @@ Print Assumptions C08_no_future.
 Print Assumptions C08_none_iff.
 Print Assumptions C08_relevance_rounding.
 Print Assumptions C08_relevance_integral_age.
+Print Assumptions C08_estimate_spec.
+Print Assumptions C08_capacity_bounds.
